@@ -214,14 +214,18 @@ pub fn men_of(b: &Board, c: Color, p: Piece) -> u32 {
     b.piece2(c, p).len()
 }
 
-/// GEN(k): the side to move has at most k men of each non-king kind (opponent arbitrary).
-pub fn gen_bound(b: &Board, k: u32) -> bool {
+/// GEN(kp, kn): the side to move has at most kp pawns and at most kn men of each other non-king
+/// kind (the opponent stays arbitrary).  GEN(k) = GEN(k, k).
+pub fn gen_bound2(b: &Board, kp: u32, kn: u32) -> bool {
     let us = b.side();
-    men_of(b, us, Piece::Pawn) <= k
-        && men_of(b, us, Piece::Knight) <= k
-        && men_of(b, us, Piece::Bishop) <= k
-        && men_of(b, us, Piece::Rook) <= k
-        && men_of(b, us, Piece::Queen) <= k
+    men_of(b, us, Piece::Pawn) <= kp
+        && men_of(b, us, Piece::Knight) <= kn
+        && men_of(b, us, Piece::Bishop) <= kn
+        && men_of(b, us, Piece::Rook) <= kn
+        && men_of(b, us, Piece::Queen) <= kn
+}
+pub fn gen_bound(b: &Board, k: u32) -> bool {
+    gen_bound2(b, k, k)
 }
 
 pub fn occ_of(cells: &[u8; 64], pred: impl Fn(u8) -> bool) -> u64 {
